@@ -8,6 +8,7 @@ M2C = os.path.join(VERIF, 'mir2c')
 BUILD = os.path.join(os.environ.get('VERIF_BUILD_DIR') or os.path.join(VERIF, 'build'), 'mir')
 HARNESS = os.path.join(VERIF, 'harness')
 ENV = dict(os.environ, CARGO_NET_OFFLINE='true')
+REPO = os.environ.get('VERIF_REPO') or '/repo'
 
 ROOTS = ["CircularBuffer::truncate_back", "CircularBuffer::truncate_front", "CircularBuffer::clear", "CircularBuffer::fill",
          "CircularBuffer::fill_spare", "CircularBuffer::fill_with", "CircularBuffer::fill_spare_with",
@@ -53,7 +54,7 @@ def dump_and_translate(feature_cfg, tag):
         if f.endswith('.h') or f.endswith('.c'):
             shutil.copy(os.path.join(M2C, f), BUILD)
     mir = os.path.join(BUILD, 'mir_%s.txt' % tag)
-    cmd = ['rustc', '+nightly', '--edition', '2021', '--crate-type', 'lib', '--crate-name', 'circular_buffer', '/repo/src/lib.rs',
+    cmd = ['rustc', '+nightly', '--edition', '2021', '--crate-type', 'lib', '--crate-name', 'circular_buffer', REPO + '/src/lib.rs',
            '-Zunpretty=mir', '-C', 'overflow-checks=on', '-C', 'debug-assertions=off']
     for c in feature_cfg:
         cmd += ['--cfg', 'feature="%s"' % c]
@@ -62,7 +63,7 @@ def dump_and_translate(feature_cfg, tag):
     if p.returncode != 0 or os.path.getsize(mir) < 1000:
         return None, dict(error='rustc MIR dump failed: ' + p.stderr[-800:])
     gen = os.path.join(BUILD, 'gen_%s.c' % tag)
-    rc, out, dt = sh([sys.executable, os.path.join(M2C, 'mir2c.py'), mir, '/repo/src', gen] + ROOTS, cwd=BUILD, timeout=300)
+    rc, out, dt = sh([sys.executable, os.path.join(M2C, 'mir2c.py'), mir, REPO + '/src', gen] + ROOTS, cwd=BUILD, timeout=300)
     m = re.search(r'translated (\d+) functions, (\d+) unsupported', out)
     info = dict(mir_lines=sum(1 for _ in open(mir)), translated=int(m.group(1)) if m else 0,
                 unsupported=[l[13:] for l in out.split('\n') if l.startswith('UNSUPPORTED: ')], seconds=round(time.time() - t0, 1),
@@ -337,7 +338,7 @@ def run(prop, tier, spec, log, baseline=None, quiet=False):
     # vacuity: every witness relevant for the fault class must be reachable for some capacity
     for (scen, faults, msg), sts in sorted(wit.items()):
         cls = re.match(r'^\[(\w+)\]', msg).group(1)
-        if (cls == 'drop' and faults == 2) or (cls == 'user' and faults == 1):
+        if (cls == 'drop' and faults in (2, 3)) or (cls == 'user' and faults in (1, 3)):
             continue
         if 'FAILURE' not in sts:
             res['broken'].append('E2 vacuity: witness "%s" of %s (faults=%d) is unreachable at every capacity' % (msg, scen, faults))
